@@ -31,6 +31,15 @@ class Layout:
         extra = [f"zn7 was: integer :: old !{self.docmark} zn8 old doc", f"zn9 remark !{self.docmark} zn10", f"zn11 see !{self.predocmark} zn12 and !{self.docmark_alt} zn13"]
         return self.rng.choice(COMMENT_WORDS + extra) if self.rng.random() < 0.3 else self.rng.choice(COMMENT_WORDS)
 
+    def _empty_doc(self, ind, k):
+        """an empty documentation line (paragraph break) inside a following doc block: the marker alone, or - the block goes on after
+        it - a blank line or an ordinary comment line"""
+        r = self.rng.random()
+        if self.plain or k == 0 or r < 0.6:
+            return f"{ind}!{self.docmark}"
+        self.features.add("doc_block_continues_after_blank_or_comment_line")
+        return "" if r < 0.8 else ind + "! " + self.rng.choice(COMMENT_WORDS)
+
     # ------------------------------------------------------------------ free form
     def free(self, stmts: List[Stmt]) -> str:
         out: List[str] = []
@@ -57,10 +66,10 @@ class Layout:
             if docs:
                 self.features.add("doc:" + style)
                 if style == "after":
-                    post_lines = [f"{ind}!{self.docmark} {d}" if d else f"{ind}!{self.docmark}" for d in docs]
+                    post_lines = [f"{ind}!{self.docmark} {d}" if d else self._empty_doc(ind, k) for k, d in enumerate(docs)]
                 elif style == "inline":
                     inline = f" !{self.docmark} {docs[0]}"
-                    post_lines = [f"{ind}!{self.docmark} {d}" if d else f"{ind}!{self.docmark}" for d in docs[1:]]
+                    post_lines = [f"{ind}!{self.docmark} {d}" if d else self._empty_doc(ind, k + 1) for k, d in enumerate(docs[1:])]
                 elif style == "pre":
                     pre_lines = [f"{ind}!{self.predocmark} {d}" if d else f"{ind}!{self.predocmark}" for d in docs]
                 elif style == "alt":
